@@ -1651,19 +1651,954 @@ Qed.
 
 (* ======================================================================== *)
 (* Part I : the covered alphabet, final form                                 *)
-Definition prim_pre (p : prim) (s : tstate) : Prop :=
+Definition prim_pre1 (p : prim) (s : tstate) : Prop :=
   match p with
   | PStats f => stats_pre f s
   | _ => prim_pre0 p s
   end.
-Theorem step_preserves_InvC p s : InvC s -> prim_pre p s -> InvC (step n p s).
+Theorem step_preserves_InvC1 p s : InvC s -> prim_pre1 p s -> InvC (step n p s).
 Proof.
   intros HI Hp. destruct p; try (apply step_preserves_InvC0; assumption).
   cbn [step]. apply contract_stats_inv; assumption.
+Qed.
+
+
+
+(* ======================================================================== *)
+(* Part J : updates that do not touch the cost fields (recipes, index orders, contractor cache) *)
+Definition cost_same (i i' : ninfo) : Prop :=
+  i_legs i' = i_legs i /\ i_involved i' = i_involved i /\ i_size i' = i_size i /\ i_flops i' = i_flops i.
+Lemma node_inv_cost_same ch sl nd i i' : cost_same i i' -> node_inv ch sl nd i -> node_inv ch sl nd i'.
+Proof. intros (E1&E2&E3&E4) H. unfold node_inv in *. rewrite E1, E2, E3, E4. exact H. Qed.
+Lemma cost_same_mono i i' : cost_same i i' -> mono i i'.
+Proof. intros (_&_&E3&E4). unfold mono. rewrite E3, E4. auto. Qed.
+Lemma InvC_upd_neutral nd f s : (forall i, cost_same i (f i)) -> InvC s ->
+  InvC (upd_info nd f s) /\ Ext s (upd_info nd f s).
+Proof.
+  intros Hf [HS HT]. destruct (InvC_upd nd f s HS) as [A B].
+  - intros i Hi. split; [|apply cost_same_mono, Hf]. apply (node_inv_cost_same _ _ _ i); [apply Hf|].
+    destruct HS as (_&_&H3&_). apply (H3 nd i Hi).
+  - split; [split; [exact A|apply (totals_Ext s); assumption]|exact B].
+Qed.
+Lemma fold_upd_neutral f (L : list (node * (node * node))) : (forall i, cost_same i (f i)) -> forall s, InvC s ->
+  InvC (fold_left (fun s p => upd_info (fst p) f s) L s) /\ Ext s (fold_left (fun s p => upd_info (fst p) f s) L s).
+Proof.
+  intros Hf. induction L as [|p L IH]; intros s HI; cbn [fold_left]; [split; [exact HI|apply Ext_refl]|].
+  destruct (InvC_upd_neutral (fst p) f s Hf HI) as [A B]. destruct (IH _ A) as [A' B'].
+  split; [exact A'|eapply Ext_trans; eassumption].
+Qed.
+Lemma cost_same_drop_recipes i : cost_same i (drop_recipes i).
+Proof. unfold cost_same. cbn. auto. Qed.
+Lemma cost_same_drop_inds_recipes i : cost_same i (drop_inds_recipes i).
+Proof. unfold cost_same. cbn. auto. Qed.
+Lemma same_set_cores x s : same_cost_fields s (set_cores x s).
+Proof. unfold same_cost_fields. repeat split; reflexivity. Qed.
+Theorem reset_recipes_inv s : InvC s -> InvC (reset_recipes s).
+Proof.
+  intros HI. unfold reset_recipes, over_children. apply (InvC_same _ _ (same_set_cores _ _)).
+  apply fold_upd_neutral; [apply cost_same_drop_recipes|exact HI].
+Qed.
+Theorem reset_inds_inv s : InvC s -> InvC (reset_inds s).
+Proof.
+  intros HI. unfold reset_inds, over_children. apply (InvC_same _ _ (same_set_cores _ _)).
+  apply fold_upd_neutral; [apply cost_same_drop_inds_recipes|exact HI].
+Qed.
+
+(* ======================================================================== *)
+(* Part K : what removing one more index does to the specification           *)
+Lemma insert_by_perm {A} (le : A -> A -> bool) x l : Permutation (insert_by le x l) (x :: l).
+Proof.
+  induction l as [|y l IH]; cbn; [reflexivity|]. destruct (le y x); [|reflexivity].
+  rewrite IH. apply perm_swap.
+Qed.
+Lemma sort_by_perm {A} (le : A -> A -> bool) l : Permutation (sort_by le l) l.
+Proof.
+  unfold sort_by. assert (H : forall acc, Permutation (fold_left (fun acc x => insert_by le x acc) l acc) (l ++ acc)).
+  { induction l as [|x l IH]; intros acc; cbn [fold_left app]; [reflexivity|].
+    rewrite IH, insert_by_perm. apply Permutation_sym, Permutation_middle. }
+  rewrite H, app_nil_r. reflexivity.
+Qed.
+Lemma memb_iff a b j : (In j a <-> In j b) -> memb j a = memb j b.
+Proof.
+  intros H. destruct (memb j a) eqn:Ea, (memb j b) eqn:Eb; try reflexivity.
+  - apply memb_In, H, memb_In in Ea. congruence.
+  - apply memb_In, H, memb_In in Eb. congruence.
+Qed.
+Lemma cnt_ext sl1 sl2 : (forall j, memb j (removed sl1) = memb j (removed sl2)) ->
+  forall S j, cnt n sl1 S j = cnt n sl2 S j.
+Proof.
+  intros H S j. induction S as [|k S IH]; cbn [cnt]; [reflexivity|]. rewrite IH. f_equal.
+  unfold term_sl. f_equal. apply filter_ext. intros a. rewrite H. reflexivity.
+Qed.
+
+Section OneMore.
+Variable sl sl' : list slinfo.
+Variable ind : ix.
+Hypothesis fresh : ~ In ind (removed sl).
+Hypothesis Hrem : forall j, In j (removed sl') <-> j = ind \/ In j (removed sl).
+
+Lemma memb_removed' j : memb j (removed sl') = memb j (removed sl) || Nat.eqb j ind.
+Proof.
+  destruct (Nat.eqb_spec j ind) as [->|Hn].
+  - rewrite orb_true_r. apply memb_In, Hrem. left. reflexivity.
+  - rewrite orb_false_r. apply memb_iff. rewrite Hrem. tauto.
+Qed.
+Lemma cnt_more S j : cnt n sl' S j = if Nat.eqb j ind then 0 else cnt n sl S j.
+Proof.
+  rewrite <- (cnt_slice n sl ind None S j). apply cnt_ext. intros k.
+  rewrite memb_removed'. unfold removed. rewrite map_app. cbn. unfold memb. rewrite existsb_app. cbn.
+  rewrite orb_false_r. reflexivity.
+Qed.
+Lemma spec_more S j : spec_count n sl' S j = if Nat.eqb j ind then 0 else spec_count n sl S j.
+Proof. unfold spec_count. rewrite cnt_more. destruct (Nat.eqb j ind); [destruct (0 <? appear n j); reflexivity|reflexivity]. Qed.
+
+Lemma lget_map0 j L : lget j (map (fun k => (k, 0)) L) = if memb j L then Some 0 else None.
+Proof.
+  induction L as [|a L IH]; cbn; [reflexivity|]. rewrite Nat.eqb_sym. destruct (Nat.eqb j a); cbn; [reflexivity|exact IH].
+Qed.
+Lemma memb_filter j f L : memb j (filter f L) = memb j L && f j.
+Proof.
+  destruct (memb j (filter f L)) eqn:E.
+  - apply memb_In, filter_In in E. destruct E as [E1 E2]. apply memb_In in E1. rewrite E1, E2. reflexivity.
+  - apply memb_false in E. destruct (memb j L) eqn:E1; [|reflexivity]. destruct (f j) eqn:E2; [|reflexivity].
+    exfalso. apply E, filter_In. split; [apply memb_In, E1|exact E2].
+Qed.
+Lemma root_legs_more j : lget j (root_legs n sl') = if Nat.eqb j ind then None else lget j (root_legs n sl).
+Proof.
+  unfold root_legs. rewrite !lget_map0, !memb_filter, memb_removed'.
+  destruct (Nat.eqb j ind); [rewrite orb_true_r, andb_false_r; reflexivity|rewrite orb_false_r; reflexivity].
+Qed.
+
+(* dict.pop(ind) *)
+Lemma ldel_notin j d : ~ In j (lkeys d) -> ldel j d = d.
+Proof.
+  unfold lkeys. induction d as [|[k w] d IH]; cbn; [reflexivity|]. intros H.
+  destruct (Nat.eqb_spec k j); [subst; tauto|]. f_equal. apply IH. tauto.
+Qed.
+Lemma lkeys_ldel j d : NoDup (lkeys d) -> lkeys (ldel j d) = filter (fun k => negb (Nat.eqb k j)) (lkeys d).
+Proof.
+  unfold lkeys. induction d as [|[k w] d IH]; cbn; [reflexivity|]. intros ND. inversion ND as [|? ? Hn ND']; subst.
+  destruct (Nat.eqb_spec k j) as [->|Hkj]; cbn.
+  - symmetry. clear -Hn. induction (map fst d) as [|a l IHl]; cbn; [reflexivity|].
+    destruct (Nat.eqb_spec a j) as [->|]; cbn; [exfalso; apply Hn; left; reflexivity|]. f_equal. apply IHl. intros H. apply Hn. right. exact H.
+  - f_equal. apply IH, ND'.
+Qed.
+Lemma lget_ldel j i d : NoDup (lkeys d) -> lget i (ldel j d) = if Nat.eqb i j then None else lget i d.
+Proof.
+  unfold lkeys. induction d as [|[k w] d IH]; cbn; [destruct (Nat.eqb i j); reflexivity|]. intros ND.
+  inversion ND as [|? ? Hn ND']; subst. destruct (Nat.eqb_spec k j) as [->|Hkj]; cbn.
+  - destruct (Nat.eqb_spec i j) as [->|Hij].
+    + apply lget_none_notin. exact Hn.
+    + destruct (Nat.eqb_spec j i); [congruence|reflexivity].
+  - destruct (Nat.eqb_spec k i) as [->|Hki].
+    + destruct (Nat.eqb_spec i j); [congruence|reflexivity].
+    + apply IH, ND'.
+Qed.
+Lemma wfl_ldel j d : wfl d -> wfl (ldel j d).
+Proof.
+  intros [ND Hp]. split.
+  - rewrite lkeys_ldel by exact ND. apply NoDup_filter, ND.
+  - intros kv Hkv. apply Hp. clear -Hkv. induction d as [|[k w] d IH]; cbn in *; [contradiction|].
+    destruct (Nat.eqb k j); [right; exact Hkv|]. destruct Hkv as [H|H]; [left; exact H|right; apply IH, H].
+Qed.
+Lemma lget0_ldel j i d : NoDup (lkeys d) -> lget0 i (ldel j d) = if Nat.eqb i j then 0 else lget0 i d.
+Proof. intros ND. unfold lget0. rewrite lget_ldel by exact ND. destruct (Nat.eqb i j); reflexivity. Qed.
+Lemma size_of_ldel sz j d : NoDup (lkeys d) ->
+  size_of sz (lkeys d) = (size_of sz (lkeys (ldel j d)) * (if lmem j d then zget j sz else 1))%Z.
+Proof.
+  intros ND. rewrite lkeys_ldel by exact ND. rewrite (size_of_filter_out j sz (lkeys d) ND).
+  f_equal. destruct (lmem j d) eqn:E.
+  - apply lmem_in_keys, memb_In in E. rewrite E. reflexivity.
+  - apply lmem_false_notin, memb_false in E. rewrite E. reflexivity.
+Qed.
+
+(* the transformations remove_ind applies to the caches are exactly right *)
+Lemma slegs_more nd lg : slegs_ok n sl nd lg -> slegs_ok n sl' nd (ldel ind lg).
+Proof.
+  intros [W G]. split; [apply wfl_ldel, W|]. intros j. rewrite lget0_ldel by apply W. rewrite spec_more, G. reflexivity.
+Qed.
+Lemma inv_more l r inv : inv_ok n sl l r inv -> inv_ok n sl' l r (ldel ind inv).
+Proof.
+  intros [W G]. split; [apply wfl_ldel, W|]. intros j. rewrite lget0_ldel by apply W. rewrite !spec_more, G.
+  destruct (Nat.eqb j ind); reflexivity.
+Qed.
+Lemma legs_more nd lg : legs_ok n sl nd lg -> legs_ok n sl' nd (ldel ind lg).
+Proof.
+  unfold legs_ok. destruct (Nat.eqb (length nd) N); [|apply slegs_more].
+  intros [ND G]. split; [rewrite lkeys_ldel by exact ND; apply NoDup_filter, ND|].
+  intros j. rewrite lget_ldel by exact ND. rewrite root_legs_more, G. reflexivity.
+Qed.
+End OneMore.
+
+(* ======================================================================== *)
+(* Part L : remove_ind                                                       *)
+Lemma fuel_S s : exists f, fuel n s = S f.
+Proof. unfold fuel. exists (2 * N + 2 * length (info s) + 2 * length (children s) + 5). lia. Qed.
+Lemma g_involved_hit s nd v : rd i_involved s nd = Some v -> g_involved n s nd = (s, v).
+Proof. intros H. unfold g_involved. destruct (fuel_S s) as [f ->]. rewrite get_involved_S, H. reflexivity. Qed.
+Lemma g_legs_hit s nd v : rd i_legs s nd = Some v -> g_legs n s nd = (s, v).
+Proof. intros H. unfold g_legs. destruct (fuel_S s) as [f ->]. rewrite get_legs_S, H. reflexivity. Qed.
+
+Lemma nget_upd_same nd f s : nget nd (info (upd_info nd f s)) = option_map f (nget nd (info s)).
+Proof. unfold upd_info. destruct (nget nd (info s)) eqn:E; cbn; [apply nget_nset_same|exact E]. Qed.
+Lemma nget_upd_other nd q f s : q <> nd -> nget q (info (upd_info nd f s)) = nget q (info s).
+Proof. intros H. unfold upd_info. destruct (nget nd (info s)); cbn; [apply nget_nset_other, H|reflexivity]. Qed.
+Lemma nkeys_upd nd f s : nkeys (info (upd_info nd f s)) = nkeys (info s).
+Proof. unfold upd_info. destruct (nget nd (info s)) eqn:E; cbn; [apply nkeys_nset_in; congruence|reflexivity]. Qed.
+
+(* sums over a duplicate-free key list when the summand changes at one key *)
+Lemma zsum_map_change (g g' : node -> Z) nd K : NoDup K -> In nd K -> (forall q, q <> nd -> g' q = g q) ->
+  zsum (map g' K) = (zsum (map g K) + (g' nd - g nd))%Z.
+Proof.
+  induction K as [|a K IH]; intros ND Hin Hg; [contradiction|]. inversion ND as [|? ? Ha ND']; subst.
+  cbn [map]. rewrite !zsum_cons. destruct (node_eq_dec a nd) as [->|Hn].
+  - assert (E : map g' K = map g K) by (apply map_ext_in; intros q Hq; apply Hg; intros ->; contradiction).
+    rewrite E. lia.
+  - rewrite Hg by exact Hn. rewrite IH; [lia|exact ND'| |exact Hg]. destruct Hin as [H|H]; [congruence|exact H].
+Qed.
+Lemma count_map_change (g g' : node -> Z) nd z K : NoDup K -> In nd K -> (forall q, q <> nd -> g' q = g q) ->
+  count_occ Z.eq_dec (map g' K) z
+  = count_occ Z.eq_dec (map g K) z - (if Z.eqb z (g nd) then 1 else 0) + (if Z.eqb z (g' nd) then 1 else 0).
+Proof.
+  induction K as [|a K IH]; intros ND Hin Hg; [contradiction|]. inversion ND as [|? ? Ha ND']; subst.
+  cbn [map count_occ]. destruct (node_eq_dec a nd) as [->|Hn].
+  - assert (E : map g' K = map g K) by (apply map_ext_in; intros q Hq; apply Hg; intros ->; contradiction).
+    rewrite E. destruct (Z.eq_dec (g' nd) z), (Z.eq_dec (g nd) z), (Z.eqb_spec z (g nd)), (Z.eqb_spec z (g' nd)); try congruence; lia.
+  - rewrite Hg by exact Hn. assert (Hk : In nd K) by (destruct Hin as [H|H]; [congruence|exact H]).
+    rewrite (IH ND' Hk Hg).
+    assert (Hpos : (if Z.eqb z (g nd) then 1 else 0) <= count_occ Z.eq_dec (map g K) z).
+    { destruct (Z.eqb_spec z (g nd)) as [->|]; [|lia]. apply count_occ_In, in_map, Hk. }
+    destruct (Z.eq_dec (g a) z); lia.
+Qed.
+
+(* bookkeeping for a run of updates on ONE node *)
+Definition stage (s : tstate) (nd : node) (sk : tstate) (ik : ninfo) : Prop :=
+  nget nd (info sk) = Some ik /\ (forall q, q <> nd -> nget q (info sk) = nget q (info s)) /\
+  nkeys (info sk) = nkeys (info s) /\ children sk = children s /\ sliced sk = sliced s /\ mult sk = mult s /\
+  trk_flops sk = trk_flops s /\ trk_write sk = trk_write s /\ trk_size sk = trk_size s.
+Lemma stage_refl s nd i : nget nd (info s) = Some i -> stage s nd s i.
+Proof. intros H. unfold stage. repeat split; auto. Qed.
+Lemma stage_upd s nd sk ik f : stage s nd sk ik -> stage s nd (upd_info nd f sk) (f ik).
+Proof.
+  intros (A1&A2&A3&A4&A5&A6&A7&A8&A9). destruct (upd_info_fields nd f sk) as (F1&F2&F3&F4&F5&F6&_).
+  unfold stage. split; [rewrite nget_upd_same, A1; reflexivity|]. split; [intros q Hq; rewrite nget_upd_other by exact Hq; apply A2, Hq|].
+  split; [rewrite nkeys_upd; exact A3|]. repeat split; congruence.
+Qed.
+Lemma stage_fields s nd sk ik sk' : stage s nd sk ik -> info sk' = info sk -> children sk' = children sk ->
+  sliced sk' = sliced sk -> mult sk' = mult sk -> trk_flops sk' = trk_flops sk -> trk_write sk' = trk_write sk ->
+  trk_size sk' = trk_size sk -> stage s nd sk' ik.
+Proof. intros (A1&A2&A3&A4&A5&A6&A7&A8&A9) E1 E2 E3 E4 E5 E6 E7. unfold stage. rewrite E1, E2, E3, E4, E5, E6, E7. repeat split; assumption. Qed.
+Lemma rd_stage {A} (fld : ninfo -> option A) s nd sk ik : stage s nd sk ik -> rd fld sk nd = fld ik.
+Proof. intros (A1&_). unfold rd. rewrite A1. reflexivity. Qed.
+
+Lemma rin_internal ind d s nd i inv zf lg zs :
+  length nd <> 1 -> nget nd (info s) = Some i ->
+  i_involved i = Some inv -> i_flops i = Some zf -> i_legs i = Some lg -> i_size i = Some zs ->
+  let hv := lmem ind inv in let hl := lmem ind lg in
+  let i1 := w_flops (Some (zf / d)%Z) (w_involved (Some (ldel ind inv)) i) in
+  let i' := if hv then drop_inds_recipes (if hl then w_size (Some (zs / d)%Z) (w_legs (Some (ldel ind lg)) i1) else i1) else i in
+  let s' := remove_ind_node n ind d s nd in
+  stage s nd s' i' /\
+  flops_ s' = (if hv then flops_ s + (zf / d - zf) else flops_ s)%Z /\
+  write_ s' = (if hv && hl then write_ s + (zs / d - zs) else write_ s)%Z /\
+  sizes_mc s' = (if hv && hl then mc_add (zs / d)%Z (mc_discard zs (sizes_mc s)) else sizes_mc s).
+Proof.
+  intros E1 Hi Hinv Hzf Hlg Hzs. cbn zeta. unfold remove_ind_node.
+  destruct (Nat.eqb_spec (length nd) 1) as [|_]; [contradiction|].
+  rewrite (g_involved_hit s nd inv) by (unfold rd; rewrite Hi; exact Hinv).
+  destruct (lmem ind inv) eqn:Ev; cbn [negb andb].
+  2:{ split; [apply stage_refl, Hi|]. repeat split; reflexivity. }
+  set (s2 := upd_info nd (w_involved (Some (ldel ind inv))) s).
+  assert (S2 : stage s nd s2 (w_involved (Some (ldel ind inv)) i)) by (apply stage_upd, stage_refl, Hi).
+  rewrite (g_flops_hit s2 nd zf) by (rewrite (rd_stage i_flops _ _ _ _ S2); exact Hzf).
+  set (s4 := set_flops _ (upd_info nd (w_flops (Some (zf / d)%Z)) s2)).
+  set (i1 := w_flops (Some (zf / d)%Z) (w_involved (Some (ldel ind inv)) i)).
+  assert (S4 : stage s nd s4 i1).
+  { apply (stage_fields s nd (upd_info nd (w_flops (Some (zf / d)%Z)) s2)); try reflexivity. apply stage_upd, S2. }
+  destruct (upd_info_fields nd (w_involved (Some (ldel ind inv))) s) as (_&_&_&_&_&_&P7&P8&P9&P10).
+  destruct (upd_info_fields nd (w_flops (Some (zf / d)%Z)) s2) as (_&_&_&_&_&_&Q7&Q8&Q9&Q10).
+  assert (F4 : flops_ s4 = (flops_ s + (zf / d - zf))%Z).
+  { change (flops_ s4) with (flops_ s2 + (zf / d - zf))%Z. unfold s2. rewrite P7. reflexivity. }
+  assert (W4 : write_ s4 = write_ s).
+  { change (write_ s4) with (write_ (upd_info nd (w_flops (Some (zf / d)%Z)) s2)). rewrite Q8. unfold s2. rewrite P8. reflexivity. }
+  assert (Z4 : sizes_mc s4 = sizes_mc s).
+  { unfold sizes_mc. change (sizes_ s4) with (sizes_ (upd_info nd (w_flops (Some (zf / d)%Z)) s2)).
+    change (sizes_max s4) with (sizes_max (upd_info nd (w_flops (Some (zf / d)%Z)) s2)).
+    rewrite Q9, Q10. unfold s2. rewrite P9, P10. reflexivity. }
+  rewrite (g_legs_hit s4 nd lg) by (rewrite (rd_stage i_legs _ _ _ _ S4); exact Hlg).
+  destruct (lmem ind lg) eqn:El.
+  - set (sa := upd_info nd (w_legs (Some (ldel ind lg))) s4).
+    assert (Sa : stage s nd sa (w_legs (Some (ldel ind lg)) i1)) by (apply stage_upd, S4).
+    rewrite (g_size_hit sa nd zs) by (rewrite (rd_stage i_size _ _ _ _ Sa); exact Hzs).
+    destruct (upd_info_fields nd (w_legs (Some (ldel ind lg))) s4) as (_&_&_&_&_&_&R7&R8&R9&R10).
+    set (sc := set_sizes _ sa).
+    assert (Sc : stage s nd sc (w_legs (Some (ldel ind lg)) i1)) by (apply (stage_fields s nd sa); try reflexivity; exact Sa).
+    set (sd := set_write _ (upd_info nd (w_size (Some (zs / d)%Z)) sc)).
+    assert (Sd : stage s nd sd (w_size (Some (zs / d)%Z) (w_legs (Some (ldel ind lg)) i1))).
+    { apply (stage_fields s nd (upd_info nd (w_size (Some (zs / d)%Z)) sc)); try reflexivity. apply stage_upd, Sc. }
+    destruct (upd_info_fields nd (w_size (Some (zs / d)%Z)) sc) as (_&_&_&_&_&_&T7&T8&T9&T10).
+    destruct (upd_info_fields nd drop_inds_recipes sd) as (_&_&_&_&_&_&U7&U8&U9&U10).
+    assert (Za : sizes_mc sa = sizes_mc s) by (unfold sizes_mc, sa; rewrite R9, R10; exact Z4).
+    split; [apply stage_upd, Sd|]. rewrite U7, U8. unfold sizes_mc at 1. rewrite U9, U10.
+    split.
+    { change (flops_ sd) with (flops_ (upd_info nd (w_size (Some (zs / d)%Z)) sc)). rewrite T7.
+      change (flops_ sc) with (flops_ sa). unfold sa. rewrite R7. exact F4. }
+    split.
+    { change (write_ sd) with (write_ sc + (zs / d - zs))%Z.
+      change (write_ sc) with (write_ sa). unfold sa. rewrite R8, W4. reflexivity. }
+    change (sizes_ sd) with (sizes_ (upd_info nd (w_size (Some (zs / d)%Z)) sc)).
+    change (sizes_max sd) with (sizes_max (upd_info nd (w_size (Some (zs / d)%Z)) sc)). rewrite T9, T10.
+    change (sizes_ sc) with (fst (mc_add (zs / d)%Z (mc_discard zs (sizes_mc sa)))).
+    change (sizes_max sc) with (snd (mc_add (zs / d)%Z (mc_discard zs (sizes_mc sa)))).
+    rewrite Za. destruct (mc_add (zs / d)%Z (mc_discard zs (sizes_mc s))); reflexivity.
+  - destruct (upd_info_fields nd drop_inds_recipes s4) as (_&_&_&_&_&_&U7&U8&U9&U10).
+    split; [apply stage_upd, S4|]. rewrite U7, U8. unfold sizes_mc in *. rewrite U9, U10.
+    split; [exact F4|]. split; [exact W4|exact Z4].
+Qed.
+
+Section RemoveInd.
+Variable sl sl' : list slinfo.
+Variable ind : ix.
+Variable d : Z.
+Hypothesis Hrem : forall j, In j (removed sl') <-> j = ind \/ In j (removed sl).
+Hypothesis Hd : d = zget ind (szd n).
+Hypothesis Hdpos : (0 < d)%Z.
+
+Lemma div_back a m : a = (m * d)%Z -> (a / d)%Z = m.
+Proof. intros ->. apply Z.div_mul. lia. Qed.
+
+(* the new cost fields of an internal node, uniformly *)
+Lemma node_more ch nd i i' inv zf lg zs : node_inv ch sl nd i -> length nd <> 1 ->
+  i_involved i = Some inv -> i_flops i = Some zf -> i_legs i = Some lg -> i_size i = Some zs ->
+  i_involved i' = Some (ldel ind inv) -> i_legs i' = Some (ldel ind lg) ->
+  i_flops i' = Some (zf / (if lmem ind inv then d else 1))%Z ->
+  i_size i' = Some (zs / (if lmem ind lg then d else 1))%Z ->
+  node_inv ch sl' nd i'.
+Proof.
+  intros (A&B&C&D) E1 Hinv Hzf Hlg Hzs Hinv' Hlg' Hzf' Hzs'.
+  pose proof (A lg Hlg) as Al. pose proof (legs_more sl sl' ind Hrem nd lg Al) as Al'.
+  destruct (B inv Hinv) as [[E _]|(l & r & Ech & Hok)]; [contradiction|].
+  pose proof (inv_more sl sl' ind Hrem l r inv Hok) as Hok'.
+  unfold node_inv. rewrite Hinv', Hlg', Hzf', Hzs'. repeat split.
+  - intros x [= <-]. exact Al'.
+  - intros x [= <-]. right. exists l, r. split; assumption.
+  - intros z [= <-] lg' Hlg''. rewrite <- (legs_ok_size_unique n sl' (szd n) nd _ _ Al' Hlg'').
+    assert (NDl : NoDup (lkeys lg)). { unfold legs_ok in Al. destruct (Nat.eqb (length nd) N); [apply Al|apply Al]. }
+    pose proof (C zs Hzs lg Al) as Ez. rewrite (size_of_ldel (szd n) ind lg NDl) in Ez. rewrite <- Hd in Ez.
+    destruct (lmem ind lg); [apply div_back, Ez|rewrite Z.div_1_r; lia].
+  - intros z [= <-]. right. exists l, r. split; [exact Ech|]. intros inv' Hinv''.
+    rewrite <- (inv_ok_size_unique n sl' (szd n) l r _ _ Hok' Hinv'').
+    destruct (D zf Hzf) as [[E _]|(l2 & r2 & Ech2 & Hf)]; [contradiction|]. rewrite Ech in Ech2. injection Ech2 as <- <-.
+    pose proof (Hf inv Hok) as Ez. rewrite (size_of_ldel (szd n) ind inv (proj1 (proj1 Hok))) in Ez. rewrite <- Hd in Ez.
+    destruct (lmem ind inv); [apply div_back, Ez|rewrite Z.div_1_r; lia].
+Qed.
+
+(* a leaf whose term does not carry the index *)
+Lemma leaf_spec_same k j : ~ In ind (nth k (inputs n) []) -> spec_count n sl' [k] j = spec_count n sl [k] j.
+Proof.
+  intros Hn. rewrite (spec_more sl sl' ind Hrem). destruct (Nat.eqb_spec j ind) as [->|]; [|reflexivity].
+  unfold spec_count. cbn [cnt]. assert (E : occ (term_sl n sl k) ind = 0).
+  { destruct (occ (term_sl n sl k) ind) eqn:Eo; [reflexivity|]. exfalso. apply Hn.
+    assert (Hin : In ind (term_sl n sl k)) by (apply occ_pos; lia). unfold term_sl in Hin. apply filter_In in Hin. apply Hin. }
+  rewrite E. cbn. destruct (appear n ind); reflexivity.
+Qed.
+Lemma leaf_legs_ok_same k lg : ~ In ind (nth k (inputs n) []) -> (legs_ok n sl [k] lg <-> legs_ok n sl' [k] lg).
+Proof.
+  intros Hn. unfold legs_ok. cbn [length]. destruct (Nat.eqb_spec 1 N) as [E|_]; [lia|].
+  unfold slegs_ok. split; intros [W G]; (split; [exact W|]); intros j; rewrite G; [symmetry|]; apply leaf_spec_same, Hn.
+Qed.
+Lemma leaf_node_same ch k i : children_ok ch -> ~ In ind (nth k (inputs n) []) -> node_inv ch sl [k] i -> node_inv ch sl' [k] i.
+Proof.
+  intros Hc Hn (A&B&C&D). unfold node_inv. repeat split.
+  - intros lg Hl. apply (leaf_legs_ok_same k lg Hn), A, Hl.
+  - intros inv Hi. destruct (B inv Hi) as [Hl|(l & r & E & _)]; [left; exact Hl|].
+    exfalso. apply (leaf_not_parent ch [k] l r Hc E). reflexivity.
+  - intros z Hz lg Hl. apply (C z Hz). apply (leaf_legs_ok_same k lg Hn), Hl.
+  - intros z Hz. destruct (D z Hz) as [Hl|(l & r & E & _)]; [left; exact Hl|].
+    exfalso. apply (leaf_not_parent ch [k] l r Hc E). reflexivity.
+Qed.
+
+Definition fullinfo (i : ninfo) : Prop :=
+  exists inv zf lg zs, i_involved i = Some inv /\ i_flops i = Some zf /\ i_legs i = Some lg /\ i_size i = Some zs /\
+                       (lmem ind lg = true -> lmem ind inv = true).
+
+(* during the loop of remove_ind: the nodes still to do are right for the OLD sliced set and
+   fully cached, the others are right for the NEW one; the running totals always match the caches *)
+Definition Mix (todo : list node) (s : tstate) : Prop :=
+  children_ok (children s) /\ NoDup (nkeys (info s)) /\ sliced s = sl' /\ mult s = multiplicity n sl' /\
+  trk_flops s = true /\ trk_write s = true /\ trk_size s = true /\
+  (tot_flops (nkeys (children s)) s /\ tot_write (nkeys (children s)) s /\ tot_size (nkeys (children s)) s) /\
+  forall nd i, nget nd (info s) = Some i ->
+    good_node nd /\ (length nd = 1 \/ In nd (nkeys (children s))) /\
+    (In nd todo -> node_inv (children s) sl nd i /\ (length nd <> 1 -> fullinfo i)) /\
+    (~ In nd todo -> node_inv (children s) sl' nd i).
+
+Lemma Mix_done s : Mix [] s -> InvC s.
+Proof.
+  intros (H1&H2&H3&H4&_&_&_&HT&HN'). split; [|apply totals_split, HT].
+  unfold InvS. rewrite H3. split; [exact H1|]. split; [exact H2|]. split; [|exact H4].
+  intros nd i Hi. destruct (HN' nd i Hi) as (G&_&_&Hd'). split; [exact G|apply Hd'; intros []].
+Qed.
+
+Lemma Mix_step nd todo s i : Mix (nd :: todo) s -> ~ In nd todo -> nget nd (info s) = Some i ->
+  Mix todo (remove_ind_node n ind d s nd) /\ nkeys (info (remove_ind_node n ind d s nd)) = nkeys (info s).
+Proof.
+  intros (H1&H2&H3&H4&Tf&Tw&Ts&(T1&T2&T3)&HN') Hnt Hi.
+  destruct (HN' nd i Hi) as (G & Hkey & Htodo & _). destruct (Htodo (or_introl eq_refl)) as [Hni Hfull].
+  destruct (Nat.eq_dec (length nd) 1) as [E1|E1].
+  - (* a leaf *)
+    rewrite (len1 nd E1) in *. set (k := hd 0 nd) in *.
+    assert (Hnk : ~ In [k] (nkeys (children s))).
+    { intros Hin. apply nget_in_keys in Hin. destruct (nget [k] (children s)) as [[l r]|] eqn:E; [|congruence].
+      apply (leaf_not_parent _ [k] l r H1 E). reflexivity. }
+    unfold remove_ind_node. cbn [length Nat.eqb hd].
+    destruct (memb ind (nth k (inputs n) [])) eqn:Em.
+    + (* its term carries the index: the leaf is reset *)
+      unfold remove_node. cbn [length Nat.eqb hd]. unfold clear_info.
+      set (sc := upd_info [k] (fun _ => noinfo) s).
+      assert (Sc : stage s [k] sc noinfo) by (apply (stage_upd s [k] s i (fun _ => noinfo)), stage_refl, Hi).
+      destruct (upd_info_fields [k] (fun _ => noinfo) s) as (F1&F2&F3&F4&F5&F6&F7&F8&F9&F10). fold sc in F1, F2, F3, F4, F5, F6, F7, F8, F9, F10.
+      set (sF := set_sliced_inputs _ _).
+      assert (SF : stage s [k] sF noinfo) by (apply (stage_fields s [k] sc); try reflexivity; exact Sc).
+      destruct SF as (A1&A2&A3&A4&A5&A6&A7&A8&A9). split; [|exact A3].
+      unfold Mix. rewrite A4, A5, A6, A7, A8, A9. split; [exact H1|]. split; [rewrite A3; exact H2|].
+      split; [exact H3|]. split; [exact H4|]. split; [exact Tf|]. split; [exact Tw|]. split; [exact Ts|]. split.
+      * apply (totals_other_node s sF _ [k]); auto.
+      * intros q j Hq. destruct (node_eq_dec q [k]) as [->|Hqn].
+        -- rewrite A1 in Hq. injection Hq as <-. split; [exact G|]. split; [left; reflexivity|].
+           split; [intros Hc; contradiction|intros _; apply node_inv_noinfo].
+        -- rewrite A2 in Hq by exact Hqn. destruct (HN' q j Hq) as (Gq & Kq & Tq & Dq).
+           split; [exact Gq|]. split; [exact Kq|]. split.
+           ++ intros Hin. apply Tq. right. exact Hin.
+           ++ intros Hnin. apply Dq. intros [Hc|Hc]; [congruence|contradiction].
+    + (* untouched *)
+      split; [|reflexivity]. unfold Mix. split; [exact H1|]. split; [exact H2|]. split; [exact H3|]. split; [exact H4|].
+      split; [exact Tf|]. split; [exact Tw|]. split; [exact Ts|]. split; [auto|].
+      intros q j Hq. destruct (HN' q j Hq) as (Gq & Kq & Tq & Dq).
+      split; [exact Gq|]. split; [exact Kq|]. split; [intros Hin; apply Tq; right; exact Hin|].
+      intros Hnin. destruct (node_eq_dec q [k]) as [->|Hqn].
+      * rewrite Hi in Hq. injection Hq as <-.
+        apply (leaf_node_same _ k i H1); [apply memb_false, Em|exact Hni].
+      * apply Dq. intros [Hc|Hc]; [congruence|contradiction].
+  - (* an internal node *)
+    destruct (Hfull E1) as (inv & zf & lg & zs & Hinv & Hzf & Hlg & Hzs & HP3).
+    destruct (rin_internal ind d s nd i inv zf lg zs E1 Hi Hinv Hzf Hlg Hzs) as (St & Ef & Ew & Ez).
+    cbn zeta in St, Ef, Ew, Ez. set (sF := remove_ind_node n ind d s nd) in *.
+    set (i' := if lmem ind inv then _ else i) in St.
+    assert (Hin : In nd (nkeys (children s))) by (destruct Hkey as [Hc|Hc]; [contradiction|exact Hc]).
+    assert (NDK : NoDup (nkeys (children s))) by apply H1.
+    (* the new cost fields *)
+    assert (Hcost : i_involved i' = Some (ldel ind inv) /\ i_legs i' = Some (ldel ind lg) /\
+                    i_flops i' = Some (zf / (if lmem ind inv then d else 1))%Z /\
+                    i_size i' = Some (zs / (if lmem ind lg then d else 1))%Z).
+    { unfold i'. destruct (lmem ind inv) eqn:Ev.
+      - destruct (lmem ind lg) eqn:El; cbn; repeat split; try reflexivity.
+        + rewrite (ldel_notin ind lg); [exact Hlg|]. apply lmem_false_notin, El.
+        + rewrite Z.div_1_r. exact Hzs.
+      - assert (El : lmem ind lg = false) by (destruct (lmem ind lg); [specialize (HP3 eq_refl); congruence|reflexivity]).
+        rewrite El, !Z.div_1_r. rewrite (ldel_notin ind inv) by (apply lmem_false_notin, Ev).
+        rewrite (ldel_notin ind lg) by (apply lmem_false_notin, El). auto. }
+    destruct Hcost as (Ci & Cl & Cf & Cs).
+    destruct St as (A1&A2&A3&A4&A5&A6&A7&A8&A9). split; [|exact A3].
+    assert (Rq : forall A (fld : ninfo -> option A) q, q <> nd -> rd fld sF q = rd fld s q).
+    { intros A fld q Hq. unfold rd. rewrite A2 by exact Hq. reflexivity. }
+    assert (Cfl_nd : cflops sF nd = (zf / (if lmem ind inv then d else 1))%Z) by (unfold cflops, rd; rewrite A1, Cf; reflexivity).
+    assert (Csz_nd : csize sF nd = (zs / (if lmem ind lg then d else 1))%Z) by (unfold csize, rd; rewrite A1, Cs; reflexivity).
+    assert (Cfl_old : cflops s nd = zf) by (unfold cflops, rd; rewrite Hi, Hzf; reflexivity).
+    assert (Csz_old : csize s nd = zs) by (unfold csize, rd; rewrite Hi, Hzs; reflexivity).
+    assert (HlP : lmem ind inv && lmem ind lg = lmem ind lg).
+    { destruct (lmem ind lg) eqn:El; [rewrite (HP3 eq_refl); reflexivity|apply andb_false_r]. }
+    unfold Mix. rewrite A4, A5, A6, A7, A8, A9. split; [exact H1|]. split; [rewrite A3; exact H2|].
+    split; [exact H3|]. split; [exact H4|]. split; [exact Tf|]. split; [exact Tw|]. split; [exact Ts|]. split; [split; [|split]|].
+    + (* flops *)
+      intros _. destruct (T1 Tf) as [Ta Tb]. split.
+      * rewrite (zsum_map_change (cflops s) (cflops sF) nd _ NDK Hin) by (intros q Hq; unfold cflops; rewrite Rq by exact Hq; reflexivity).
+        rewrite Ef, Ta, Cfl_nd, Cfl_old. destruct (lmem ind inv); [reflexivity|rewrite Z.div_1_r; lia].
+      * intros q Hq. destruct (node_eq_dec q nd) as [->|Hqn]; [unfold rd; rewrite A1, Cf; discriminate|rewrite Rq by exact Hqn; apply Tb, Hq].
+    + (* write *)
+      intros _. destruct (T2 Tw) as [Ta Tb]. split.
+      * rewrite (zsum_map_change (csize s) (csize sF) nd _ NDK Hin) by (intros q Hq; unfold csize; rewrite Rq by exact Hq; reflexivity).
+        rewrite Ew, HlP, Ta, Csz_nd, Csz_old. destruct (lmem ind lg); [reflexivity|rewrite Z.div_1_r; lia].
+      * intros q Hq. destruct (node_eq_dec q nd) as [->|Hqn]; [unfold rd; rewrite A1, Cs; discriminate|rewrite Rq by exact Hqn; apply Tb, Hq].
+    + (* the multiset of sizes *)
+      intros _. destruct (T3 Ts) as (Ta & Tb & Tc).
+      assert (Ez' : sizes_mc sF = if lmem ind lg then mc_add (zs / d)%Z (mc_discard zs (sizes_mc s)) else sizes_mc s) by (rewrite <- HlP; exact Ez).
+      split; [|split].
+      * rewrite Ez'. destruct (lmem ind lg); [apply mc_add_ok, mc_discard_ok, Ta|exact Ta].
+      * intros z. change (sizes_ sF) with (fst (sizes_mc sF)). rewrite Ez'.
+        rewrite (count_map_change (csize s) (csize sF) nd z _ NDK Hin) by (intros q Hq; unfold csize; rewrite Rq by exact Hq; reflexivity).
+        rewrite Csz_nd, Csz_old. destruct (lmem ind lg).
+        -- rewrite mc_add_count, (mc_discard_count _ z _ Ta). cbn [fst sizes_mc]. rewrite Tb. reflexivity.
+        -- cbn [fst sizes_mc]. rewrite Tb, Z.div_1_r.
+           assert (Hpos : (if Z.eqb z zs then 1 else 0) <= count_occ Z.eq_dec (map (csize s) (nkeys (children s))) z).
+           { destruct (Z.eqb_spec z zs) as [->|]; [|lia]. rewrite <- Csz_old. apply count_occ_In, in_map, Hin. }
+           lia.
+      * intros q Hq. destruct (node_eq_dec q nd) as [->|Hqn]; [unfold rd; rewrite A1, Cs; discriminate|rewrite Rq by exact Hqn; apply Tc, Hq].
+    + intros q j Hq. destruct (node_eq_dec q nd) as [->|Hqn].
+      * rewrite A1 in Hq. injection Hq as <-. split; [exact G|]. split; [exact Hkey|].
+        split; [intros Hc; contradiction|intros _].
+        apply (node_more _ nd i i' inv zf lg zs); assumption.
+      * rewrite A2 in Hq by exact Hqn. destruct (HN' q j Hq) as (Gq & Kq & Tq & Dq).
+        split; [exact Gq|]. split; [exact Kq|]. split.
+        -- intros Hin'. apply Tq. right. exact Hin'.
+        -- intros Hnin. apply Dq. intros [Hc|Hc]; [congruence|contradiction].
+Qed.
+
+Lemma Mix_fold L : forall s, NoDup L -> (forall nd, In nd L -> nget nd (info s) <> None) -> Mix L s ->
+  Mix [] (fold_left (remove_ind_node n ind d) L s).
+Proof.
+  induction L as [|nd L IH]; intros s ND Hk HM; cbn [fold_left]; [exact HM|].
+  apply NoDup_cons_iff in ND. destruct ND as [Hn ND'].
+  destruct (nget nd (info s)) as [i|] eqn:Ei; [|exfalso; apply (Hk nd (or_introl eq_refl)); exact Ei].
+  destruct (Mix_step nd L s i HM Hn Ei) as [HM' Ek]. apply IH; [exact ND'| |exact HM'].
+  intros q Hq. apply nget_in_keys. unfold nkeys in *. rewrite Ek. apply nget_in_keys, Hk. right. exact Hq.
+Qed.
+End RemoveInd.
+
+(* the population phase of remove_ind *)
+Definition populate (s : tstate) : tstate :=
+  fold_left (fun s (p : node * (node * node)) => fst (g_legs n (fst (g_involved n s (fst p))) (fst p))) (children s) s.
+Lemma populate_fold (L : list (node * (node * node))) : forall s, InvC s -> (forall p, In p L -> In (fst p) (nkeys (children s))) ->
+  InvC (fold_left (fun s p => fst (g_legs n (fst (g_involved n s (fst p))) (fst p))) L s) /\
+  Ext s (fold_left (fun s p => fst (g_legs n (fst (g_involved n s (fst p))) (fst p))) L s).
+Proof.
+  induction L as [|p L IH]; intros s HI HL; cbn [fold_left]; [split; [exact HI|apply Ext_refl]|].
+  destruct HI as [HS HT]. pose proof (child_key_good s (fst p) HS (HL p (or_introl eq_refl))) as HG.
+  destruct (g_involved_inv s (fst p) HS HG) as (A1 & B1 & _).
+  destruct (g_legs_inv _ (fst p) A1 HG) as (A2 & B2 & _).
+  set (s2 := fst (g_legs n (fst (g_involved n s (fst p))) (fst p))) in *.
+  assert (B : Ext s s2) by (eapply Ext_trans; eassumption).
+  destruct (IH s2) as [A' B'].
+  - split; [exact A2|apply (totals_Ext s); assumption].
+  - intros q Hq. destruct B as (Ech&_). rewrite Ech. apply HL. right. exact Hq.
+  - split; [exact A'|eapply Ext_trans; eassumption].
+Qed.
+Lemma populate_inv s : InvC s -> InvC (populate s) /\ Ext s (populate s).
+Proof.
+  intros HI. apply populate_fold; [exact HI|]. intros p Hp. unfold nkeys. apply in_map, Hp.
+Qed.
+Lemma stats_flags s : stats_pre false s ->
+  trk_flops (contract_stats n false s) = true /\ trk_write (contract_stats n false s) = true /\
+  trk_size (contract_stats n false s) = true.
+Proof.
+  intros Hpre. unfold contract_stats. destruct (false || negb (trk_flops s && trk_write s && trk_size s)) eqn:Ec.
+  - destruct (Hpre Ec) as (nodes & Htr & _).
+    change (traverse n (set_sizes mc_empty (set_write 0%Z (set_flops 0%Z s)))) with (traverse n s). rewrite Htr.
+    cbn. auto.
+  - cbn in Ec. apply negb_false_iff in Ec. apply andb_true_iff in Ec. destruct Ec as [Ec E3].
+    apply andb_true_iff in Ec. destruct Ec as [E1 E2]. auto.
+Qed.
+
+Definition rm_pre (ind : ix) (s : tstate) : Prop :=
+  ~ In ind (removed (sliced s)) /\ stats_pre false s /\ (0 < zget ind (szd n))%Z /\
+  forall nd i, nget nd (info (populate (contract_stats n false s))) = Some i ->
+    (length nd = 1 \/ In nd (nkeys (children s))) /\ (length nd <> 1 -> fullinfo ind i).
+
+Lemma multiplicity_perm l1 l2 : Permutation l1 l2 -> multiplicity n l1 = multiplicity n l2.
+Proof. intros H. unfold multiplicity. apply zprod_perm, Permutation_map, H. Qed.
+
+Lemma contract_stats_frame force s : InvC s -> stats_pre force s ->
+  children (contract_stats n force s) = children s /\ sliced (contract_stats n force s) = sliced s /\
+  mult (contract_stats n force s) = mult s.
+Proof.
+  intros [HS HT] Hpre. unfold contract_stats.
+  destruct (force || negb (trk_flops s && trk_write s && trk_size s)) eqn:Ec; [|auto].
+  destruct (Hpre Ec) as (nodes & Htr & HP & Hinfo).
+  set (s0 := set_sizes mc_empty (set_write 0%Z (set_flops 0%Z s))).
+  change (traverse n s0) with (traverse n s). rewrite Htr.
+  assert (HS0 : InvS s0) by (apply (InvS_struct s); [unfold same_struct; repeat split; reflexivity|exact HS]).
+  assert (HR0 : raw3 [] s0).
+  { unfold raw3, sumf, sumw, sums. split; [split; [reflexivity|intros q []]|]. split; [split; [reflexivity|intros q []]|].
+    split; [exact mc_ok_empty|]. split; [intros z; reflexivity|intros q []]. }
+  destruct (stats_body_inv nodes [] s0 HS0) as (_ & (B1&B2&B3&_) & _); [|exact HR0|].
+  { intros plr Hp. assert (Hk : In (fst plr) (nkeys (children s))) by (apply (Permutation_in _ HP), in_map, Hp).
+    split; [exact Hk|apply Hinfo, Hk]. }
+  cbn [set_trk children sliced mult]. auto.
+Qed.
+
+Theorem remove_ind_inv ind pj s : InvC s -> rm_pre ind s -> InvC (remove_ind n ind pj s).
+Proof.
+  intros HI (Hfresh & Hst & Hpos & Hfull). unfold remove_ind.
+  destruct (memb ind (removed (sliced s))) eqn:Em; [apply memb_In in Em; contradiction|].
+  pose proof (contract_stats_inv false s HI Hst) as HI1.
+  destruct (stats_flags s Hst) as (Tf1 & Tw1 & Ts1).
+  destruct (contract_stats_frame false s HI Hst) as (Ech1 & Esl1 & Em1).
+  set (s1 := contract_stats n false s) in *.
+  destruct (populate_inv s1 HI1) as [HI2 E12]. fold (populate s1). fold (populate s1) in Hfull. set (s2 := populate s1) in *.
+  destruct E12 as (Ech2&Esl2&Em2&Ef2&Ew2&Es2&_).
+  set (sl := sliced s) in *. set (x := mkSl ind pj).
+  set (sl' := sort_by (sl_le n) (sliced (match pj with None => set_mult (mult s2 * zget ind (szd n))%Z s2 | Some _ => s2 end) ++ [x])).
+  assert (Esl3 : sliced (match pj with None => set_mult (mult s2 * zget ind (szd n))%Z s2 | Some _ => s2 end) = sl).
+  { destruct pj; cbn; congruence. }
+  assert (HPsl : Permutation sl' (sl ++ [x])) by (unfold sl'; rewrite Esl3; apply sort_by_perm).
+  assert (Hrem : forall j, In j (removed sl') <-> j = ind \/ In j (removed sl)).
+  { intros j. unfold removed. split.
+    - intros H. apply (Permutation_in _ (Permutation_map sl_ix HPsl)) in H. rewrite map_app, in_app_iff in H. cbn in H. destruct H as [H|[H|[]]]; [right; exact H|left; symmetry; exact H].
+    - intros H. apply (Permutation_in _ (Permutation_sym (Permutation_map sl_ix HPsl))). rewrite map_app, in_app_iff. cbn. destruct H as [H|H]; [right; left; symmetry; exact H|left; exact H]. }
+  set (s3 := match pj with None => set_mult (mult s2 * zget ind (szd n))%Z s2 | Some _ => s2 end) in *.
+  set (s4 := set_sliced sl' s3).
+  assert (Einfo4 : info s4 = info s2) by (unfold s4, s3; destruct pj; reflexivity).
+  assert (Ech4 : children s4 = children s2) by (unfold s4, s3; destruct pj; reflexivity).
+  destruct HI2 as [(C1&C2&C3&C5) HT2].
+  assert (HM : Mix sl sl' ind (nkeys (info s4)) s4).
+  { unfold Mix. rewrite Ech4, Einfo4. split; [exact C1|]. split; [exact C2|]. split; [reflexivity|]. split.
+    - rewrite (multiplicity_perm _ _ HPsl). unfold x. rewrite (slicing_scales_multiplicity n sl ind pj).
+      unfold s4, s3. destruct pj; cbn; rewrite C5, Esl2, Esl1; fold sl; lia.
+    - split; [unfold s4, s3; destruct pj; cbn; congruence|]. split; [unfold s4, s3; destruct pj; cbn; congruence|].
+      split; [unfold s4, s3; destruct pj; cbn; congruence|]. split.
+      + apply totals_split in HT2.
+        assert (Hsame : forall K, (tot_flops K s2 /\ tot_write K s2 /\ tot_size K s2) -> (tot_flops K s4 /\ tot_write K s4 /\ tot_size K s4)).
+        { intros K HK. unfold s4, s3. destruct pj; exact HK. }
+        apply Hsame, HT2.
+      + intros nd i Hi. destruct (C3 nd i Hi) as [G Hn]. destruct (Hfull nd i Hi) as [Hk Hf].
+        split; [exact G|]. split; [rewrite Ech2, Ech1; exact Hk|]. split.
+        * intros _. split; [rewrite Esl2, Esl1 in Hn; exact Hn|exact Hf].
+        * intros Hnin. exfalso. apply Hnin. apply nget_in_keys. congruence. }
+  assert (HF := Mix_fold sl sl' ind (zget ind (szd n)) Hrem eq_refl Hpos (nkeys (info s4)) s4).
+  apply reset_recipes_inv. apply (Mix_done sl sl' ind). apply HF; [rewrite Einfo4; exact C2| |exact HM].
+  intros nd Hnd. apply nget_in_keys, Hnd.
+Qed.
+
+(* ======================================================================== *)
+(* Part M : recipe getters, sort / reset of contraction indices: no cost field is touched *)
+Lemma inv_g_legs s nd : InvC s -> good_node nd -> InvC (fst (g_legs n s nd)).
+Proof. intros HI HG. apply (step_preserves_InvC1 (PGet GLegs nd) s HI HG). Qed.
+Lemma inv_g_size s nd : InvC s -> good_node nd -> InvC (fst (g_size n s nd)).
+Proof. intros HI HG. apply (step_preserves_InvC1 (PGet GSize nd) s HI HG). Qed.
+Lemma inv_g_flops s nd : InvC s -> good_node nd -> flops_pre s nd -> InvC (fst (g_flops n s nd)).
+Proof. intros HI HG HP. apply (step_preserves_InvC1 (PGet GFlops nd) s HI (conj HG HP)). Qed.
+Lemma inv_upd_neutral nd f s : (forall i, cost_same i (f i)) -> InvC s -> InvC (upd_info nd f s).
+Proof. intros Hf HI. apply (InvC_upd_neutral nd f s Hf HI). Qed.
+Lemma inv_err s : InvC s -> InvC (set_err s).
+Proof. apply InvC_same, same_set_err. Qed.
+Lemma entry_good s p l r : InvC s -> nget p (children s) = Some (l, r) -> good_node p /\ good_node l /\ good_node r.
+Proof.
+  intros [HS _] E. split; [apply (child_key_good s p HS), nget_in_keys; congruence|].
+  destruct HS as ((_&Hc)&_). destruct (Hc p l r E) as (Gl & Gr & _). auto.
+Qed.
+Lemma cs_inds v i : cost_same i (w_inds v i). Proof. unfold cost_same. cbn. auto. Qed.
+Lemma cs_can_dot v i : cost_same i (w_can_dot v i). Proof. unfold cost_same. cbn. auto. Qed.
+Lemma cs_tdaxes v i : cost_same i (w_tdaxes v i). Proof. unfold cost_same. cbn. auto. Qed.
+Lemma cs_tdperm v i : cost_same i (w_tdperm v i). Proof. unfold cost_same. cbn. auto. Qed.
+Lemma cs_eq v i : cost_same i (w_eq v i). Proof. unfold cost_same. cbn. auto. Qed.
+
+Lemma get_inds_S f' s nd : get_inds n (S f') s nd =
+    match rd i_inds s nd with
+    | Some v => (s, v)
+    | None =>
+        if Nat.eqb (length nd) 1 || Nat.eqb (length nd) N then
+          let '(s1, l) := g_legs n s nd in
+          (upd_info nd (w_inds (Some (lkeys l))) s1, lkeys l)
+        else
+          let '(s1, lg) := g_legs n s nd in
+          match nget nd (children s1) with
+          | None => (set_err s1, [])
+          | Some (l, r) =>
+              let '(s2, li) := get_inds n f' s1 l in
+              let '(s3, ri) := get_inds n f' s2 r in
+              let v := unique (filter (fun j => lmem j lg) (li ++ ri)) in
+              (upd_info nd (w_inds (Some v)) s3, v)
+          end
+    end.
+Proof. reflexivity. Qed.
+Lemma inv_get_inds f : forall s nd, InvC s -> good_node nd -> InvC (fst (get_inds n f s nd)).
+Proof.
+  induction f as [|f IH]; intros s nd HI HG; [apply inv_err, HI|].
+  rewrite get_inds_S. destruct (rd i_inds s nd); [exact HI|].
+  pose proof (inv_g_legs s nd HI HG) as H1. destruct (g_legs n s nd) as [s1 lg]. cbn [fst] in H1.
+  destruct (Nat.eqb (length nd) 1 || Nat.eqb (length nd) N); cbn [fst].
+  - apply inv_upd_neutral; [intros; apply cs_inds|exact H1].
+  - destruct (nget nd (children s1)) as [[l r]|] eqn:E; [|apply inv_err, H1].
+    destruct (entry_good s1 nd l r H1 E) as (_ & Gl & Gr).
+    pose proof (IH s1 l H1 Gl) as H2. destruct (get_inds n f s1 l) as [s2 li]. cbn [fst] in H2.
+    pose proof (IH s2 r H2 Gr) as H3. destruct (get_inds n f s2 r) as [s3 ri]. cbn [fst] in H3. cbn [fst].
+    apply inv_upd_neutral; [intros; apply cs_inds|exact H3].
+Qed.
+Lemma inv_g_inds s nd : InvC s -> good_node nd -> InvC (fst (g_inds n s nd)).
+Proof. apply inv_get_inds. Qed.
+
+Lemma inv_g_can_dot s nd : InvC s -> good_node nd -> InvC (fst (g_can_dot n s nd)).
+Proof.
+  intros HI HG. unfold g_can_dot. destruct (rd i_can_dot s nd); [exact HI|].
+  destruct (nget nd (children s)) as [[l r]|] eqn:E; [|apply inv_err, HI].
+  destruct (entry_good s nd l r HI E) as (_ & Gl & Gr).
+  pose proof (inv_g_legs s nd HI HG) as H1. destruct (g_legs n s nd) as [s1 sp]. cbn [fst] in H1.
+  pose proof (inv_g_legs s1 l H1 Gl) as H2. destruct (g_legs n s1 l) as [s2 sl]. cbn [fst] in H2.
+  pose proof (inv_g_legs s2 r H2 Gr) as H3. destruct (g_legs n s2 r) as [s3 sr]. cbn [fst] in H3. cbn [fst].
+  apply inv_upd_neutral; [intros; apply cs_can_dot|exact H3].
+Qed.
+Lemma inv_g_tdaxes s nd : InvC s -> good_node nd -> InvC (fst (g_tdaxes n s nd)).
+Proof.
+  intros HI HG. unfold g_tdaxes. destruct (rd i_tdaxes s nd); [exact HI|].
+  destruct (nget nd (children s)) as [[l r]|] eqn:E; [|apply inv_err, HI].
+  destruct (entry_good s nd l r HI E) as (_ & Gl & Gr).
+  pose proof (inv_g_inds s l HI Gl) as H1. destruct (g_inds n s l) as [s1 li]. cbn [fst] in H1.
+  pose proof (inv_g_inds s1 r H1 Gr) as H2. destruct (g_inds n s1 r) as [s2 ri]. cbn [fst] in H2. cbn [fst].
+  apply inv_upd_neutral; [intros; apply cs_tdaxes|exact H2].
+Qed.
+Lemma inv_g_tdperm s nd : InvC s -> good_node nd -> InvC (fst (g_tdperm n s nd)).
+Proof.
+  intros HI HG. unfold g_tdperm. destruct (rd i_tdperm s nd); [exact HI|].
+  destruct (nget nd (children s)) as [[l r]|] eqn:E; [|apply inv_err, HI].
+  destruct (entry_good s nd l r HI E) as (_ & Gl & Gr).
+  pose proof (inv_g_inds s l HI Gl) as H1. destruct (g_inds n s l) as [s1 li]. cbn [fst] in H1.
+  pose proof (inv_g_inds s1 r H1 Gr) as H2. destruct (g_inds n s1 r) as [s2 ri]. cbn [fst] in H2.
+  pose proof (inv_g_inds s2 nd H2 HG) as H3. destruct (g_inds n s2 nd) as [s3 pi]. cbn [fst] in H3. cbn [fst].
+  apply inv_upd_neutral; [intros; apply cs_tdperm|exact H3].
+Qed.
+Lemma inv_g_eq s nd : InvC s -> good_node nd -> InvC (fst (g_eq n s nd)).
+Proof.
+  intros HI HG. unfold g_eq. destruct (rd i_eq s nd); [exact HI|].
+  destruct (nget nd (children s)) as [[l r]|] eqn:E; [|apply inv_err, HI].
+  destruct (entry_good s nd l r HI E) as (_ & Gl & Gr).
+  pose proof (inv_g_inds s l HI Gl) as H1. destruct (g_inds n s l) as [s1 li]. cbn [fst] in H1.
+  pose proof (inv_g_inds s1 r H1 Gr) as H2. destruct (g_inds n s1 r) as [s2 ri]. cbn [fst] in H2.
+  pose proof (inv_g_inds s2 nd H2 HG) as H3. destruct (g_inds n s2 nd) as [s3 pi]. cbn [fst] in H3. cbn [fst].
+  apply inv_upd_neutral; [intros; apply cs_eq|exact H3].
+Qed.
+
+(* sort_contraction_indices *)
+Lemma inv_sort_step moc mcc s p l r : InvC s -> good_node p -> good_node l -> good_node r ->
+  InvC (sort_step n moc mcc s (p, (l, r))).
+Proof.
+  intros HI Gp Gl Gr. unfold sort_step.
+  pose proof (inv_g_inds s p HI Gp) as H1. destruct (g_inds n s p) as [s1 pi]. cbn [fst] in H1.
+  pose proof (inv_g_inds s1 l H1 Gl) as H2. destruct (g_inds n s1 l) as [s2 li]. cbn [fst] in H2.
+  pose proof (inv_g_inds s2 r H2 Gr) as H3. destruct (g_inds n s2 r) as [s3 ri]. cbn [fst] in H3.
+  set (X := if moc && negb (Nat.eqb (length p) N) then _ else (s3, pi)).
+  assert (H4 : InvC (fst X)).
+  { unfold X. destruct (moc && negb (Nat.eqb (length p) N)); cbn [fst]; [apply inv_upd_neutral; [intros; apply cs_inds|exact H3]|exact H3]. }
+  destruct X as [s4 pi']. cbn [fst] in H4. destruct mcc; [|exact H4].
+  set (Y := if negb (Nat.eqb (length l) 1) then _ else (s4, li)).
+  assert (H5 : InvC (fst Y)).
+  { unfold Y. destruct (negb (Nat.eqb (length l) 1)); cbn [fst]; [|exact H4].
+    pose proof (inv_g_legs s4 l H4 Gl) as Ha. destruct (g_legs n s4 l) as [sa lg]. cbn [fst] in Ha. cbn [fst].
+    apply inv_upd_neutral; [intros; apply cs_inds|exact Ha]. }
+  destruct Y as [s5 li']. cbn [fst] in H5.
+  destruct (negb (Nat.eqb (length r) 1)); [|exact H5].
+  pose proof (inv_g_legs s5 r H5 Gr) as Ha. destruct (g_legs n s5 r) as [sa lg]. cbn [fst] in Ha.
+  apply inv_upd_neutral; [intros; apply cs_inds|exact Ha].
+Qed.
+Lemma inv_sort_fold moc mcc nodes : forall s, InvC s ->
+  (forall e, In e nodes -> good_node (fst e) /\ good_node (fst (snd e)) /\ good_node (snd (snd e))) ->
+  InvC (fold_left (sort_step n moc mcc) nodes s).
+Proof.
+  induction nodes as [|[p [l r]] nodes IH]; intros s HI Hg; cbn [fold_left]; [exact HI|].
+  destruct (Hg _ (or_introl eq_refl)) as (Gp & Gl & Gr). cbn [fst snd] in *.
+  apply IH; [apply inv_sort_step; assumption|intros e He; apply Hg; right; exact He].
+Qed.
+Lemma dfs_loop_entries ch : forall f queue done acc res, dfs_loop f ch queue done acc = Some res ->
+  (forall e, In e acc -> nget (fst e) ch = Some (snd e)) -> forall e, In e res -> nget (fst e) ch = Some (snd e).
+Proof.
+  induction f as [|f IH]; intros queue done acc res H Hacc; cbn [dfs_loop] in H; [discriminate|].
+  destruct queue as [|nd q].
+  - injection H as <-. intros e He. apply Hacc, in_rev, He.
+  - destruct (nget nd ch) as [[l r]|] eqn:E; [|discriminate].
+    destruct (is_ready done l && is_ready done r).
+    + apply (IH _ _ _ _ H). intros e [<-|He]; [exact E|apply Hacc, He].
+    + apply (IH _ _ _ _ H Hacc).
+Qed.
+Lemma descend_loop_entries ch : forall f queue acc res, descend_loop f ch queue acc = Some res ->
+  (forall e, In e acc -> nget (fst e) ch = Some (snd e)) -> forall e, In e res -> nget (fst e) ch = Some (snd e).
+Proof.
+  induction f as [|f IH]; intros queue acc res H Hacc; cbn [descend_loop] in H; [discriminate|].
+  destruct queue as [|p q].
+  - injection H as <-. intros e He. apply Hacc, in_rev, He.
+  - destruct (nget p ch) as [[l r]|] eqn:E; [|discriminate].
+    apply (IH _ _ _ H). intros e [<-|He]; [exact E|apply Hacc, He].
+Qed.
+Lemma traverse_entries s res : traverse n s = Some res -> forall e, In e res -> nget (fst e) (children s) = Some (snd e).
+Proof.
+  unfold traverse. destruct (Nat.eqb N 1); [intros [= <-] e []|].
+  intros H. apply (dfs_loop_entries _ _ _ _ _ _ H). intros e [].
+Qed.
+Lemma descend_entries s res : descend n s = Some res -> forall e, In e res -> nget (fst e) (children s) = Some (snd e).
+Proof. unfold descend. intros H. apply (descend_loop_entries _ _ _ _ _ H). intros e []. Qed.
+
+Lemma g_flops_children s nd : InvC s -> good_node nd -> flops_pre s nd -> children (fst (g_flops n s nd)) = children s.
+Proof. intros [HS _] HG HP. destruct (g_flops_inv s nd HS HG HP) as (_ & B & _). apply B. Qed.
+Lemma g_size_children s nd : InvC s -> good_node nd -> children (fst (g_size n s nd)) = children s.
+Proof.
+  intros [HS _] HG. unfold g_size. destruct (rd i_size s nd); [reflexivity|].
+  destruct (g_legs_inv s nd HS HG) as (_ & B & _). destruct (g_legs n s nd) as [s1 l]. cbn [fst] in *.
+  destruct (upd_info_fields nd (w_size (Some (size_of (szd n) (lkeys l)))) s1) as (F1&_). rewrite F1. apply B.
+Qed.
+Lemma keyed_fold (g : tstate -> node -> tstate * Z) :
+  (forall s nd, InvC s -> nget nd (children s) <> None -> InvC (fst (g s nd)) /\ children (fst (g s nd)) = children s) ->
+  forall (L : list (node * (node * node))) s acc, InvC s -> (forall c, In c L -> nget (fst c) (children s) <> None) ->
+  let r := fold_left (fun acc c => let '(sa, v) := g (fst acc) (fst c) in (sa, snd acc ++ [(v, c)])) L (s, acc) in
+  InvC (fst r) /\ children (fst r) = children s /\ map snd (snd r) = map snd acc ++ L.
+Proof.
+  intros Hg. induction L as [|c L IH]; intros s acc HI HL; cbn [fold_left].
+  - cbn. rewrite app_nil_r. auto.
+  - cbn [fst snd]. destruct (Hg s (fst c) HI (HL c (or_introl eq_refl))) as [A B].
+    destruct (g s (fst c)) as [sa v]. cbn [fst] in A, B.
+    destruct (IH sa (acc ++ [(v, c)]) A) as (A' & B' & C').
+    + intros c' Hc'. rewrite B. apply HL. right. exact Hc'.
+    + cbn zeta in A', B', C'. split; [exact A'|]. split; [congruence|]. rewrite C', map_app. cbn. rewrite <- app_assoc. reflexivity.
+Qed.
+
+Theorem sort_inds_inv pr moc mcc reset s : InvC s -> InvC (sort_inds n pr moc mcc reset s).
+Proof.
+  intros HI. unfold sort_inds.
+  set (s0 := if reset then reset_inds s else s).
+  assert (H0 : InvC s0) by (unfold s0; destruct reset; [apply reset_inds_inv, HI|exact HI]).
+  assert (Hentries : forall e, nget (fst e) (children s0) = Some (snd e) ->
+            good_node (fst e) /\ good_node (fst (snd e)) /\ good_node (snd (snd e))).
+  { intros [p [l r]] E. cbn [fst snd] in *. apply (entry_good s0 p l r H0 E). }
+  assert (Hin_ch : forall c, In c (children s0) -> nget (fst c) (children s0) = Some (snd c)).
+  { intros [p lr] Hc. apply In_nget; [apply H0|exact Hc]. }
+  assert (Hfin : forall s1 nodes, InvC s1 -> (forall e, In e nodes -> nget (fst e) (children s0) = Some (snd e)) ->
+            InvC (reset_recipes (fold_left (sort_step n moc mcc) nodes s1))).
+  { intros s1 nodes H1 Hn. apply reset_recipes_inv, inv_sort_fold; [exact H1|]. intros e He. apply Hentries, Hn, He. }
+  destruct pr.
+  - (* flops *)
+    destruct (keyed_fold (g_flops n)) with (L := children s0) (s := s0) (acc := @nil (Z * (node * (node * node)))) as (A & B & C).
+    + intros s' nd HI' Hch. assert (HG : good_node nd) by (apply (child_key_good s' nd (proj1 HI')), nget_in_keys, Hch).
+      split; [apply inv_g_flops; [exact HI'|exact HG|right; left; exact Hch]|apply g_flops_children; [exact HI'|exact HG|right; left; exact Hch]].
+    + exact H0.
+    + intros c Hc. rewrite (Hin_ch c Hc). discriminate.
+    + cbn zeta in A, B, C. destruct (fold_left _ (children s0) (s0, [])) as [sa keyed]. cbn [fst snd] in *. cbn [app map] in C.
+      apply Hfin; [exact A|]. intros e He. apply Hin_ch. rewrite <- C.
+      apply (Permutation_in _ (Permutation_map snd (sort_by_perm (fun a b : Z * (node * (node * node)) => (fst a <=? fst b)%Z) keyed))), He.
+  - (* size *)
+    destruct (keyed_fold (g_size n)) with (L := children s0) (s := s0) (acc := @nil (Z * (node * (node * node)))) as (A & B & C).
+    + intros s' nd HI' Hch. assert (HG : good_node nd) by (apply (child_key_good s' nd (proj1 HI')), nget_in_keys, Hch).
+      split; [apply inv_g_size; assumption|apply g_size_children; assumption].
+    + exact H0.
+    + intros c Hc. rewrite (Hin_ch c Hc). discriminate.
+    + cbn zeta in A, B, C. destruct (fold_left _ (children s0) (s0, [])) as [sa keyed]. cbn [fst snd] in *. cbn [app map] in C.
+      apply Hfin; [exact A|]. intros e He. apply Hin_ch. rewrite <- C.
+      apply (Permutation_in _ (Permutation_map snd (sort_by_perm (fun a b : Z * (node * (node * node)) => (fst a <=? fst b)%Z) keyed))), He.
+  - destruct (traverse n s0) as [nodes|] eqn:Et; [|apply inv_err, H0].
+    apply Hfin; [exact H0|]. apply (traverse_entries s0 nodes Et).
+  - destruct (descend n s0) as [nodes|] eqn:Et; [|apply inv_err, H0].
+    apply Hfin; [exact H0|]. apply (descend_entries s0 nodes Et).
+Qed.
+
+(* ======================================================================== *)
+(* Part N : the covered alphabet, final form: everything except restore_ind and the three
+   single-figure totals (total_flops / total_write / max_size when they have to recompute) *)
+Definition prim_pre (p : prim) (s : tstate) : Prop :=
+  match p with
+  | PGet GCanDot nd | PGet GInds nd | PGet GTdAxes nd | PGet GTdPerm nd | PGet GEq nd => good_node nd
+  | PResetInds | PResetRecipes | PSortInds _ _ _ _ => True
+  | PRemoveInd ind _ => rm_pre ind s
+  | PTotalFlops => trk_flops s = true
+  | PTotalWrite => trk_write s = true
+  | PMaxSize => trk_size s = true
+  | _ => prim_pre1 p s
+  end.
+Theorem step_preserves_InvC p s : InvC s -> prim_pre p s -> InvC (step n p s).
+Proof.
+  intros HI Hp. destruct p as [nd|nd|x y lg c z|g nd|f| | | | | |pr a b c|ind pj|ind| |k];
+    try (apply step_preserves_InvC1; assumption); cbn [step]; cbn [prim_pre] in Hp.
+  - destruct g; cbn [do_get].
+    + exact (step_preserves_InvC1 (PGet GLegs nd) s HI Hp).
+    + exact (step_preserves_InvC1 (PGet GInvolved nd) s HI Hp).
+    + exact (step_preserves_InvC1 (PGet GSize nd) s HI Hp).
+    + exact (step_preserves_InvC1 (PGet GFlops nd) s HI Hp).
+    + apply inv_g_can_dot; assumption.
+    + apply inv_g_inds; assumption.
+    + apply inv_g_tdaxes; assumption.
+    + apply inv_g_tdperm; assumption.
+    + apply inv_g_eq; assumption.
+  - unfold total_flops_op. rewrite Hp. exact HI.
+  - unfold total_write_op. rewrite Hp. exact HI.
+  - unfold max_size_op. destruct (Nat.eqb_spec N 1); [lia|]. rewrite Hp. exact HI.
+  - apply reset_inds_inv, HI.
+  - apply reset_recipes_inv, HI.
+  - apply sort_inds_inv, HI.
+  - apply remove_ind_inv; assumption.
 Qed.
 Theorem run_preserves_InvC tr : forall s, InvC s -> pre_trace n prim_pre tr s -> InvC (run n tr s).
 Proof. intros s HI Hp. apply (run_good n InvC prim_pre step_preserves_InvC tr s HI Hp). Qed.
 Theorem trace_from_fresh_InvC tr : pre_trace n prim_pre tr (init_state n) -> InvC (run n tr (init_state n)).
 Proof. apply run_preserves_InvC, init_state_InvC. Qed.
+
+(* ======================================================================== *)
+(* Part O : the figures are a function of (children, SET of removed indices)  *)
+Section SameRemoved.
+Variable sl1 sl2 : list slinfo.
+Hypothesis Hsame : forall j, In j (removed sl1) <-> In j (removed sl2).
+Lemma memb_same j : memb j (removed sl1) = memb j (removed sl2).
+Proof. apply memb_iff, Hsame. Qed.
+Lemma spec_count_same S j : spec_count n sl1 S j = spec_count n sl2 S j.
+Proof. unfold spec_count. rewrite (cnt_ext sl1 sl2 memb_same S j). reflexivity. Qed.
+Lemma root_legs_same : root_legs n sl1 = root_legs n sl2.
+Proof. unfold root_legs. f_equal. apply filter_ext. intros j. rewrite memb_same. reflexivity. Qed.
+Lemma legs_ok_same nd lg : legs_ok n sl1 nd lg -> legs_ok n sl2 nd lg.
+Proof.
+  unfold legs_ok. rewrite root_legs_same. destruct (Nat.eqb (length nd) N); [auto|].
+  intros [W G]. split; [exact W|]. intros j. rewrite G. apply spec_count_same.
+Qed.
+Lemma inv_ok_same l r inv : inv_ok n sl1 l r inv -> inv_ok n sl2 l r inv.
+Proof. intros [W G]. split; [exact W|]. intros j. rewrite G, !spec_count_same. reflexivity. Qed.
+End SameRemoved.
+
+Theorem figures_determined s1 s2 : InvC s1 -> InvC s2 -> children s1 = children s2 ->
+  (forall j, In j (removed (sliced s1)) <-> In j (removed (sliced s2))) ->
+  forall nd i1 i2, nget nd (info s1) = Some i1 -> nget nd (info s2) = Some i2 ->
+  (forall z1 z2, i_size i1 = Some z1 -> i_size i2 = Some z2 -> z1 = z2) /\
+  (forall z1 z2, i_flops i1 = Some z1 -> i_flops i2 = Some z2 -> z1 = z2) /\
+  (forall l1 l2, i_legs i1 = Some l1 -> i_legs i2 = Some l2 ->
+     size_of (szd n) (lkeys l1) = size_of (szd n) (lkeys l2) /\ forall j, In j (lkeys l1) <-> In j (lkeys l2)).
+Proof.
+  intros [HS1 _] [HS2 _] Ech Hrm nd i1 i2 Hi1 Hi2.
+  assert (HS1' := HS1). destruct HS1' as (Hc1&_&N1&_). assert (HS2' := HS2). destruct HS2' as (_&_&N2&_).
+  destruct (N1 nd i1 Hi1) as [G (A1&B1&C1&D1)]. destruct (N2 nd i2 Hi2) as [_ (A2&B2&C2&D2)].
+  destruct (g_legs_inv s1 nd HS1 G) as (_ & _ & Hw). set (lg0 := snd (g_legs n s1 nd)) in *.
+  pose proof (legs_ok_same _ _ Hrm nd lg0 Hw) as Hw2.
+  split; [|split].
+  - intros z1 z2 E1 E2. rewrite (C1 z1 E1 lg0 Hw), (C2 z2 E2 lg0 Hw2). reflexivity.
+  - intros z1 z2 E1 E2. destruct (D1 z1 E1) as [[L1 ->]|(l & r & Ech1 & F1)].
+    + destruct (D2 z2 E2) as [[_ ->]|(l & r & Ech2 & _)]; [reflexivity|].
+      exfalso. rewrite <- Ech in Ech2. apply (leaf_not_parent _ nd l r Hc1 Ech2 L1).
+    + destruct (D2 z2 E2) as [[L2 _]|(l' & r' & Ech2 & F2)]; [exfalso; apply (leaf_not_parent _ nd l r Hc1 Ech1 L2)|].
+      rewrite <- Ech, Ech1 in Ech2. injection Ech2 as <- <-.
+      destruct (g_involved_inv s1 nd HS1 G) as (_ & _ & Hv).
+      destruct Hv as [[L _]|(l2 & r2 & E & Hinv)]; [right; congruence|exfalso; apply (leaf_not_parent _ nd l r Hc1 Ech1 L)|].
+      rewrite Ech1 in E. injection E as <- <-.
+      rewrite (F1 _ Hinv), (F2 _ (inv_ok_same _ _ Hrm l r _ Hinv)). reflexivity.
+  - intros l1 l2 E1 E2. pose proof (legs_ok_same _ _ Hrm nd l1 (A1 l1 E1)) as H1. pose proof (A2 l2 E2) as H2.
+    split; [apply (legs_ok_size_unique n (sliced s2) _ nd); assumption|].
+    unfold legs_ok in H1, H2. destruct (Nat.eqb (length nd) N).
+    + destruct H1 as [_ G1], H2 as [_ G2]. intros j. rewrite <- !lget_in_keys, G1, G2. tauto.
+    + destruct H1 as [W1 G1], H2 as [W2 G2]. apply wfl_keys_same; try assumption. intros j. rewrite G1, G2. reflexivity.
+Qed.
+
+(* ... and so are the tracked totals *)
+Theorem totals_determined s1 s2 : InvC s1 -> InvC s2 -> children s1 = children s2 ->
+  Permutation (sliced s1) (sliced s2) ->
+  (forall p, In p (nkeys (children s1)) -> nget p (info s1) <> None /\ nget p (info s2) <> None) ->
+  (trk_flops s1 = true -> trk_flops s2 = true -> flops_ s1 = flops_ s2) /\
+  (trk_write s1 = true -> trk_write s2 = true -> write_ s1 = write_ s2) /\
+  mult s1 = mult s2.
+Proof.
+  intros HI1 HI2 Ech HP Hpres.
+  assert (Hrm : forall j, In j (removed (sliced s1)) <-> In j (removed (sliced s2))).
+  { intros j. unfold removed. split; apply Permutation_in; [|apply Permutation_sym]; apply Permutation_map, HP. }
+  pose proof (figures_determined s1 s2 HI1 HI2 Ech Hrm) as HF.
+  destruct HI1 as [HS1 HT1], HI2 as [HS2 HT2].
+  assert (HT1' : tot_flops (nkeys (children s1)) s1 /\ tot_write (nkeys (children s1)) s1 /\ tot_size (nkeys (children s1)) s1) by (apply totals_split, HT1).
+  assert (HT2' : tot_flops (nkeys (children s1)) s2 /\ tot_write (nkeys (children s1)) s2 /\ tot_size (nkeys (children s1)) s2) by (rewrite Ech; apply totals_split, HT2).
+  destruct HT1' as (F1 & W1 & _), HT2' as (F2 & W2 & _).
+  split; [|split].
+  - intros T1 T2. destruct (F1 T1) as [Ea Pa], (F2 T2) as [Eb Pb]. rewrite Ea, Eb. f_equal. apply map_ext_in. intros p Hp.
+    destruct (Hpres p Hp) as [K1 K2]. destruct (nget p (info s1)) as [i1|] eqn:E1; [|congruence].
+    destruct (nget p (info s2)) as [i2|] eqn:E2; [|congruence].
+    specialize (Pa p Hp). specialize (Pb p Hp). unfold cflops, rd in *. rewrite E1 in *. rewrite E2 in *.
+    destruct (HF p i1 i2 E1 E2) as (_ & Hf & _).
+    destruct (i_flops i1) as [z1|]; [|congruence]. destruct (i_flops i2) as [z2|]; [|congruence].
+    apply (Hf z1 z2); reflexivity.
+  - intros T1 T2. destruct (W1 T1) as [Ea Pa], (W2 T2) as [Eb Pb]. rewrite Ea, Eb. f_equal. apply map_ext_in. intros p Hp.
+    destruct (Hpres p Hp) as [K1 K2]. destruct (nget p (info s1)) as [i1|] eqn:E1; [|congruence].
+    destruct (nget p (info s2)) as [i2|] eqn:E2; [|congruence].
+    specialize (Pa p Hp). specialize (Pb p Hp). unfold csize, rd in *. rewrite E1 in *. rewrite E2 in *.
+    destruct (HF p i1 i2 E1 E2) as (Hsz & _).
+    destruct (i_size i1) as [z1|]; [|congruence]. destruct (i_size i2) as [z2|]; [|congruence].
+    apply (Hsz z1 z2); reflexivity.
+  - destruct HS1 as (_&_&_&M1), HS2 as (_&_&_&M2). rewrite M1, M2. apply multiplicity_perm, HP.
+Qed.
 
 End Inv.
